@@ -282,6 +282,7 @@ func TestVerifRaftx(t *testing.T) {
 		res.Evaluations += st.Transitions
 		res.DistinctNontrivial += st.States
 		res.Extra["cfg:"+cfg.Name] = fmt.Sprintf("states=%d transitions=%d depth=%d fixpoint=%v perdepth=%v", st.States, st.Transitions, st.Depth, st.Fixpoint, st.PerDepth)
+		res.Extra["bounds:"+cfg.Name] = verifkit.NonZeroFields(cfg)
 	}
 }
 
